@@ -154,7 +154,41 @@ def run(ck, prog):
         rb = recoded(prog, "kappa_X", {"grp1": ["E", "D"], "grp2": bad})
         ck.ob("DT-validate", c3, rb[0] == "raise", expected="group 2 with a %s rejected" % why, found=rb[0], slot="grp2:" + why, where=h.loc())
     ck.attempt(_membership_only, ck, prog, h, c3)
-    ck.attempt(check_api, ck, prog, [("get_Omega", "Omega", None), ("get_Omega_sequence", "Omega_seq", None), ("get_kappa_X", "kappa_X", None)])
+    via = ck.attempt(_omega_via_kappa_X, ck, prog, cmap)
+    ck.attempt(check_api, ck, prog, ([] if via else [("get_Omega", "Omega", None)]) + [("get_Omega_sequence", "Omega_seq", None), ("get_kappa_X", "kappa_X", None)])
+
+
+def _omega_via_kappa_X(ck, prog, cmap):
+    """get_Omega routed through the general routine: kappa_X(g1, g2) must split the residues exactly as Omega does ({P,E,D,K,R} against the rest)"""
+    from lcsa import bind
+    g = prog.fn(SP, "SequenceParameters.get_Omega")
+    ff = bind.final_forward(prog, g)
+    if ff is None or ff[2].key != SEQ + ":Sequence.kappa_X":
+        return None
+    host, call, callee = ff
+    construct = g.mod.relpath + ":" + g.qual
+    _, b = bind.bind(prog, host, call, callee)
+    args = {}
+    for formal in ("grp1", "grp2"):
+        a = b.get(formal)
+        if a is None or (isinstance(a, ast.Constant) and a.value is None):
+            continue
+        ck.shape(isinstance(a, (ast.List, ast.Tuple)) and all(isinstance(e, ast.Constant) and isinstance(e.value, str) for e in a.elts),
+                 "get_Omega: routed through kappa_X with groups that are not literal lists of letters (%s)" % formal, host.loc(call))
+        args[formal] = [e.value for e in a.elts]
+    r = recoded(prog, "kappa_X", args)
+    ck.shape(r[0] == "ok", "get_Omega: kappa_X(%s) does not reduce to kappa of a recoded sequence" % args, host.loc(call))
+    t = r[1]
+    PEDKR = set("PEDKR")
+    inside = {t[L] for L in LETTERS if L in PEDKR}
+    outside = {t[L] for L in LETTERS if L not in PEDKR}
+    qa = [cmap.get(x) for x in inside]
+    qb = [cmap.get(x) for x in outside]
+    ok = len(inside) == 1 and len(outside) == 1 and inside != outside and None not in qa + qb and qa[0] * qb[0] < 0
+    wrong = sorted(L for L in LETTERS if (L in PEDKR) != (t[L] in inside)) if len(inside) == 1 else sorted(L for L in PEDKR if t[L] != t["P"])
+    ck.ob("PART-recode", construct, ok, expected="{P,E,D,K,R} -> one letter, the other fifteen -> another, of opposite charge",
+          found={"groups": args, "recoding": {L: t[L] for L in LETTERS}} if not ok else "same two classes as Omega", slot="api-via-kappa_X", where=host.loc(call))
+    return True
 
 
 def _membership_only(ck, prog, h, construct):
